@@ -165,7 +165,7 @@ def information_weight(data, prior_strength=0.1, approximate_prior=False, target
         baseline_probabilities /= baseline_probabilities.sum()
         column_kl_divergence_func = supervised_column_kl
 
-    csc_data = data.tocsc()
+    csc_data = data.tocsc(copy=True)
     csc_data.sort_indices()
 
     weights = column_weights(
